@@ -1,4 +1,5 @@
 import WowVerif.Model.C05Total
+import WowVerif.Lemmas.C01HeaderFacts
 /-!
 C05 — Parsers are total.
 
@@ -156,5 +157,19 @@ theorem readVec_le (avail len n : Nat) (h : readVec avail len = some n) : n ≤ 
 example : findHeader ([0x4D, 0x50, 0x51, 0x1A] ++ List.replicate 28 0) = .at 0 := by decide
 example : findHeader (List.replicate 40 7) = .notFound := by decide
 example : discover ([0x52, 0x45, 0x56, 0x4D, 4, 0, 0, 0, 18, 0, 0, 0, 0x58, 0x58, 0x58, 0x58, 255, 255, 255, 255]) = some [([0x52, 0x45, 0x56, 0x4D], 4)] := by decide
+
+/-! ### what an accepted archive header bounds (Model.C01Header, tied to MpqHeader::read in C01's run) -/
+
+/-- WHATEVER THE FILE SAYS, a header the reader accepts announces tables of at most a million 16-byte entries each and a sector
+    shift of at most 20: the allocations that follow (hash table, block table, sector buffers) are bounded by constants -/
+theorem mpq_accepted_header_bounds (bs : Bytes) (h : Hdr.Hdr) (hp : Hdr.parse bs = .ok h) :
+    16 * h.hashSize ≤ 16000000 ∧ 16 * h.blockSize ≤ 16000000 ∧ h.shift ≤ 20 := Hdr.accepted_tables_bounded bs h hp
+
+/-- … and the tables lie inside the announced archive size plus the reader's 64 KiB tolerance -/
+theorem mpq_accepted_tables_inside (bs : Bytes) (h : Hdr.Hdr) (hp : Hdr.parse bs = .ok h) :
+    h.hashPos < h.archiveSize ∧ h.hashPos + 16 * h.hashSize ≤ h.archiveSize + 65536 ∧
+    h.blockPos + 16 * h.blockSize ≤ h.archiveSize + 65536 := by
+  have f := Hdr.validate_facts h (Hdr.write_parse bs h hp).1.valid
+  exact ⟨f.2.2.2.2.2.1, f.2.2.2.2.2.2.2.2.2.1, f.2.2.2.2.2.2.2.2.2.2⟩
 
 end Wv.Total
